@@ -44,7 +44,8 @@ def run(repo: Repo, chk: Check) -> None:
         "present, nested readers get exactly the content; O2 header tables agree between writer and reader (class<<6 | constructed<<5 | number "
         "vs masks 0xC0>>6, 0x20, 0x1F; high tag threshold 31; short form < 128; long form 0x80|n vs &0x7F; k-th length octet read right after "
         "the identifier octets; minimal big-endian length octets; indefinite form rejected); O3 default universal tags pair up; O4 digit loops: "
-        "certificates, byte stores within [0,255], no read of possibly empty content; O5 nested writer discipline."
+        "certificates, byte stores within [0,255], no read of possibly empty content, and any value.to_bytes(W) short cut of the INTEGER "
+        "writer leaves room for the sign bit (W evaluated as a function of bit_length for every length up to 4096); O5 nested writer discipline."
     )
     chk.scope_not = "minimality and value round trip of INTEGER / OBJECT IDENTIFIER encodings for all values (arithmetic over digits)."
     chk.trusted = ["Python int.from_bytes/to_bytes, slicing and struct.unpack('B') semantics", "X.690 8.1 identifier/length octet rules transcribed here"]
@@ -53,6 +54,7 @@ def run(repo: Repo, chk: Check) -> None:
     header_writer(repo, chk)
     default_tags(repo, chk)
     digit_loops(repo, chk)
+    integer_shortcuts(repo, chk)
     nested_writers(repo, chk)
 
 
@@ -214,6 +216,7 @@ def header_reader(repo: Repo, chk: Check) -> None:
     paths = layout.reader_paths(repo, f)
     src = f.params[0]
     n = 0
+    single_read = [False]
     for p in paths:
         ints = [r for r in p.reads if r.kind == "int"]
         if not ints or not (ints[0].lo == 0 and ints[0].hi == 1):
@@ -256,6 +259,16 @@ def header_reader(repo: Repo, chk: Check) -> None:
             reps = [r for r in p.reads if r.kind == "repeat"]
             okr = False
             why = "long form length octets are not read in a loop"
+            whole = [r for r in ints[2:] if r.lo == T + 1 and r.a.get("order") == "big" and not r.a.get("signed")]
+            if not reps and whole:
+                # the octets are decoded by one big-endian unsigned read: int.from_bytes(view[1 : 1 + n], "big")
+                ln = res.fields.get("length") if hasattr(res, "fields") else None
+                okr = whole[-1].hi == T + 1 + n7 and ln == Lin.atom(("read", whole[-1].rid))
+                why = "length = the (octet & 0x7F) octets after the length octet as one big-endian unsigned integer" if okr else f"long form length is read from [{whole[-1].lo!r}:{whole[-1].hi!r}] (expected [{T + 1!r}:{T + 1 + n7!r}]) and the header carries {ln!r}"
+                single_read[0] = True
+            elif not reps and len(ints) > 2:
+                why = f"long form length is decoded from [{ints[-1].lo!r}:{ints[-1].hi!r}] as {ints[-1].a.get('order')!r}-endian{' signed' if ints[-1].a.get('signed') else ''}; expected the big-endian unsigned integer at [{T + 1!r}:{T + 1 + n7!r}]"
+                single_read[0] = True
             if reps:
                 body = reps[-1].a["body"]
                 it = Lin.atom(("iter", reps[-1].a["lid"]))
@@ -282,6 +295,8 @@ def header_reader(repo: Repo, chk: Check) -> None:
         rec = getattr(cons, "rec", None)
         okcon = rec is not None and rec.name == "bool" and _same_truth_on_byte(rec.arg(0), Lin.atom(("bitand", r1, Lin(0x20))), ("read", ints[0].rid))
         chk.ob("O2", Site.of(f, construct="constructed bit"), bool(okcon), "constructed = bool(octet & 0x20)" if okcon else f"the constructed bit is decoded as {cons!r}, expected bool(octet & 0x20)")
+    if single_read[0]:
+        return  # no accumulation loop: byte order and signedness were decided on the single read above
     okacc, why = big_endian_accumulation(repo, f)
     chk.ob("O2", Site.of(f, construct="big-endian length accumulation"), okacc, why)
 
@@ -553,7 +568,7 @@ def digit_loops(repo: Repo, chk: Check) -> None:
                 ok, why = nonempty_guard(f, node)
                 chk.ob("O4", Site.of(f, node), ok, why)
     chk.count("asn1 loops and reads", n)
-    chk.require_min("asn1 loops and reads", 12)
+    chk.require_min("asn1 loops and reads", 9)
 
 
 def nonempty_guard(f: Func, node: ast.AST) -> t.Tuple[bool, str]:
@@ -591,6 +606,84 @@ def nonempty_guard(f: Func, node: ast.AST) -> t.Tuple[bool, str]:
 
 
 # ------------------------------------------------------------------------- O5
+def integer_shortcuts(repo: Repo, chk: Check) -> None:
+    """A `value.to_bytes(W, ...)` inside the INTEGER writer encodes content octets without the octet loop.  The reader
+    takes the content as big-endian two's complement, so for the values that reach the call (dominating guards on the
+    parameter) W must leave room for the sign bit: 8 * W >= bit_length + 1, the order must be big, and without a guard
+    value >= 0 the call must be signed.  W is an arithmetic expression in value.bit_length(): it is evaluated for every
+    bit length from the guard's minimum to 4096 (a table over a finite domain, not a run of the package)."""
+    from .util import atoms_at, prov_text
+    from sa.flow import prov_ast
+
+    f = repo.func("_asn1._pack_asn1_integer")
+    chk.analysed(f)
+    vparam = f.params[0]
+    for n in body_nodes(f.node):
+        if not (isinstance(n, ast.Call) and isinstance(n.func, ast.Attribute) and n.func.attr == "to_bytes"):
+            continue
+        recv = prov_text(f, n.func.value, n)
+        if recv != vparam:
+            continue  # the width of another quantity (a digit, a length)
+        site = Site.of(f, n)
+        lo: t.Optional[int] = None
+        for e, pol in atoms_at(f, n):
+            if isinstance(e, ast.Compare) and len(e.ops) == 1:
+                okc, c = repo.try_fold(e.comparators[0], f.mod)
+                okl, l_ = repo.try_fold(e.left, f.mod)
+                op = type(e.ops[0])
+                if unparse(e.left) == vparam and okc and isinstance(c, int):
+                    b = {(ast.Gt, True): c + 1, (ast.GtE, True): c, (ast.Lt, False): c, (ast.LtE, False): c + 1}.get((op, pol))
+                elif unparse(e.comparators[0]) == vparam and okl and isinstance(l_, int):
+                    b = {(ast.Lt, True): l_ + 1, (ast.LtE, True): l_, (ast.Gt, False): l_, (ast.GtE, False): l_ + 1}.get((op, pol))
+                else:
+                    b = None
+                if b is not None:
+                    lo = b if lo is None else max(lo, b)
+        kw = {k.arg: k.value for k in n.keywords if k.arg}
+        order = repo.try_fold(kw.get("byteorder") or (n.args[1] if len(n.args) > 1 else ast.Constant(value="big")), f.mod)
+        signed = repo.try_fold(kw.get("signed") or ast.Constant(value=False), f.mod)
+        warg = kw.get("length") or (n.args[0] if n.args else None)
+        if warg is None or not order[0] or not signed[0]:
+            raise AnalysisError(f"{f.qual}:{n.lineno}: to_bytes call outside the idiom table: {unparse(n)[:60]}")
+        wtree = prov_ast(ReachingDefs(f), warg, n)
+
+        def width(bl: int) -> int:
+            def ev(x: ast.expr) -> int:
+                if isinstance(x, ast.Constant) and isinstance(x.value, int):
+                    return int(x.value)
+                if isinstance(x, ast.Call) and isinstance(x.func, ast.Attribute) and x.func.attr == "bit_length" and not x.args and unparse(x.func.value) == vparam:
+                    return bl
+                if isinstance(x, ast.BinOp):
+                    a, b_ = ev(x.left), ev(x.right)
+                    ops: t.Dict[t.Any, t.Callable[[int, int], int]] = {ast.Add: lambda p, q: p + q, ast.Sub: lambda p, q: p - q, ast.Mult: lambda p, q: p * q, ast.FloorDiv: lambda p, q: p // q, ast.Mod: lambda p, q: p % q, ast.RShift: lambda p, q: p >> q, ast.LShift: lambda p, q: p << q}
+                    if type(x.op) in ops:
+                        return ops[type(x.op)](a, b_)
+                if isinstance(x, ast.Call) and unparse(x.func) in ("max", "min") and x.args and not x.keywords:
+                    return (max if unparse(x.func) == "max" else min)(ev(a_) for a_ in x.args)
+                ok_, v_ = repo.try_fold(x, f.mod)
+                if ok_ and isinstance(v_, int):
+                    return int(v_)
+                raise AnalysisError(f"{f.qual}:{n.lineno}: width expression {unparse(warg)} is not arithmetic in {vparam}.bit_length()")
+
+            return ev(wtree)
+
+        nonneg = lo is not None and lo >= 0
+        bl_min = lo.bit_length() if nonneg and lo is not None else 0
+        chk.count("integer shortcuts")
+        if order[1] != "big":
+            chk.ob("O4", site, False, f"INTEGER content written {order[1]}-endian: the reader decodes big-endian two's complement")
+            continue
+        if not nonneg and not signed[1]:
+            chk.ob("O4", site, False, f"{unparse(n)[:60]}: unsigned to_bytes of a value that can be negative here (OverflowError), no guard {vparam} >= 0 dominates it")
+            continue
+        bad = next((bl for bl in range(bl_min, 4097) if 8 * width(bl) < bl + 1), None)
+        okw = bad is None
+        chk.ob("O4", site, okw, f"8 * ({unparse(warg)}) > bit_length for every bit length {bl_min}..4096: the sign bit has room" if okw else f"content width {unparse(warg)} is {width(t.cast(int, bad))} octet(s) for a {bad} bit value: the top content bit is set, the reader (big-endian two's complement) returns a negative number for a positive {vparam}")
+        if okw and nonneg:
+            slack = next((bl for bl in range(max(bl_min, 1), 4097) if width(bl) != bl // 8 + 1), None)
+            chk.ob("O4", site, slack is None, "and it is the minimal number of content octets (DER)" if slack is None else f"{width(t.cast(int, slack))} content octets for a {slack} bit value where {t.cast(int, slack) // 8 + 1} suffice: not the minimal (DER) form")
+
+
 def nested_writers(repo: Repo, chk: Check) -> None:
     cls = repo.cls("_asn1.ASN1Writer")
     for mname in ("push_sequence", "push_set"):
